@@ -206,3 +206,7 @@ macro_rules! c15_process {
 }
 c15_process!(c15_process_index, |i| m_index(i));
 c15_process!(c15_process_wild, |i| m_wild());
+
+// (composed queries such as `$[i][j]`, `$.a[*]`, `$.a.b` were tried here: the second stage's
+// flat_map sees a Data whose discriminant is a merge of Ref/Nothing and CBMC explores the Refs arm
+// (FlattenCompat over a heap vector) - no verdict in 600 s; see DESIGN 3.3 rule 6.)
